@@ -207,7 +207,9 @@ def _maybe_run_folder(
         run_folder = tempfile.mkdtemp()
         msg = f"{storage} storage requires a `run_folder`. Using temporary folder: `{run_folder}`."
         warnings.warn(msg, stacklevel=2)
-    return Path(run_folder) if run_folder is not None else None
+    # Absolute, such that the paths recorded in `run_info.json` do not depend on the
+    # working directory of the process that loads the run later.
+    return Path(run_folder).absolute() if run_folder is not None else None
 
 
 def _construct_internal_shapes(
